@@ -140,6 +140,9 @@ struct Config {
     sigchld: String,
     /// the same `Command` is spawned twice (first child run to its end); the second spawn is the judged one
     twice: bool,
+    /// while the caller spawns, another of its threads is inside `tiny_std::eprintln!` (holds tiny-std's
+    /// stderr lock): the forked child inherits that lock locked for ever
+    lock_held: bool,
 }
 
 impl Config {
@@ -160,6 +163,7 @@ impl Config {
             closure: "none".into(),
             sigchld: "default".into(),
             twice: false,
+            lock_held: false,
         }
     }
     fn to_json(&self) -> Value {
@@ -179,7 +183,7 @@ impl Config {
             "cwd": self.cwd,
             "stdio": self.stdio.iter().map(|m| m.name()).collect::<Vec<_>>(),
             "closed": (0..3).filter(|&k| self.closed[k]).collect::<Vec<_>>(),
-            "uid": self.uid, "gid": self.gid, "pgroup": self.pgroup, "closure": self.closure, "sigchld": self.sigchld, "twice": self.twice,
+            "uid": self.uid, "gid": self.gid, "pgroup": self.pgroup, "closure": self.closure, "sigchld": self.sigchld, "twice": self.twice, "lock_held": self.lock_held,
         })
     }
     fn from_json(v: &Value) -> Config {
@@ -203,6 +207,7 @@ impl Config {
             closure: s("closure", "none"),
             sigchld: s("sigchld", "default"),
             twice: v["twice"].as_bool().unwrap_or(false),
+            lock_held: v["lock_held"].as_bool().unwrap_or(false),
         }
     }
     /// the step that fails without any injection, with the errno Linux gives
@@ -468,6 +473,12 @@ impl sysx::Plan for CasePlan {
                 let e = &mut (*self.shm).trace[self.last_slot];
                 e.ret = call.ret;
                 e.has_ret = 1;
+                // a pipe that was really created: keep its two descriptors (args 4 and 5 are unused by pipe/pipe2)
+                if (call.nr == libc::SYS_pipe2 || call.nr == libc::SYS_pipe) && call.ret == 0 && call.real == Some(0) {
+                    let fds = call.args[0] as *const i32;
+                    e.args[4] = *fds as u64;
+                    e.args[5] = *fds.add(1) as u64;
+                }
             }
         }
     }
@@ -701,7 +712,7 @@ fn trace_json(shm: *mut Shm, caller: i32) -> Vec<Value> {
             v.push(json!({
                 "side": if e.pid == caller { "parent" } else { "child" },
                 "pid": e.pid, "idx": e.idx, "nr": e.nr, "call": sysx::name(e.nr),
-                "args": [e.args[0], e.args[1], e.args[2]],
+                "args": [e.args[0], e.args[1], e.args[2], e.args[3], e.args[4], e.args[5]],
                 "ret": if e.has_ret != 0 { json!(e.ret) } else { Value::Null },
             }));
         }
@@ -714,7 +725,7 @@ fn trace_json(shm: *mut Shm, caller: i32) -> Vec<Value> {
 fn exec_case(ctx: &Ctx, sdir: &str, shm: *mut Shm, shard_pgid: i32, cfg: &Config, faults: &[Fault]) -> ! {
     unsafe {
         libc::setpgid(0, 0);
-        libc::alarm(if read_failure_with_stdin_pipe(cfg, faults) { READ_DEADLOCK_ALARM } else { CASE_ALARM });
+        libc::alarm(if read_failure_with_stdin_pipe(cfg, faults) || cfg.lock_held { READ_DEADLOCK_ALARM } else { CASE_ALARM });
         let caller = libc::getpid();
         let f = |n: &str| format!("{sdir}/{n}");
         write_file(&f("in0"), PARENT_STDIN);
@@ -897,6 +908,36 @@ fn exec_case(ctx: &Ctx, sdir: &str, shm: *mut Shm, shard_pgid: i32, cfg: &Config
             v
         };
 
+        // ---- another thread of the caller is inside tiny_std::eprintln! (it holds the stderr lock: the
+        // argument's Display blocks on a pipe) while this thread spawns
+        let mut lock_holder: Option<(std::thread::JoinHandle<()>, i32)> = None;
+        if cfg.lock_held {
+            static INSIDE: std::sync::atomic::AtomicBool = std::sync::atomic::AtomicBool::new(false);
+            struct Blocker(i32);
+            impl std::fmt::Display for Blocker {
+                fn fmt(&self, _f: &mut std::fmt::Formatter<'_>) -> std::fmt::Result {
+                    INSIDE.store(true, SeqCst);
+                    let mut b = [0u8; 1];
+                    unsafe {
+                        while libc::read(self.0, b.as_mut_ptr() as *mut libc::c_void, 1) < 0 && *libc::__errno_location() == libc::EINTR {}
+                    }
+                    Ok(()) // (nothing is printed: the caller's stderr file stays as the program leaves it)
+                }
+            }
+            let mut fds = [0i32; 2];
+            if libc::pipe2(fds.as_mut_ptr(), libc::O_CLOEXEC) != 0 {
+                finish(shm, &json!({"machinery": "pipe for the lock holder"}));
+            }
+            let rd = fds[0];
+            let h = std::thread::spawn(move || {
+                tiny_std::eprint!("{}", Blocker(rd));
+            });
+            while !INSIDE.load(SeqCst) {
+                libc::usleep(200);
+            }
+            lock_holder = Some((h, fds[1]));
+        }
+
         // ---- (the same Command used before: first child spawned, fed, drained and waited for, un-judged)
         if cfg.twice {
             match catch(|| cmd.spawn()) {
@@ -936,6 +977,11 @@ fn exec_case(ctx: &Ctx, sdir: &str, shm: *mut Shm, shard_pgid: i32, cfg: &Config
             .0
         });
         after_spawn(caller, shm, res.is_err());
+        if let Some((h, wr)) = lock_holder.take() {
+            libc::write(wr, b"x".as_ptr() as *const libc::c_void, 1);
+            let _ = h.join();
+            libc::close(wr);
+        }
 
         let mut obs = json!({
             "caller": caller, "parent_ident": parent_ident, "raw_ident": raw_ident, "null_ident": path_ident("/dev/null"),
@@ -1481,6 +1527,71 @@ fn judge_streams_aliasing(cfg: &Config, obs: &Value, r: &mut Report, rp: &Value)
     }
 }
 
+/// What the call log itself must satisfy, in every run.
+/// Parent: every descriptor spawn creates is close-on-exec FROM ITS CREATION (another thread of the caller
+/// may fork + exec at any moment: a flag set by a later fcntl leaves a window in which that other program
+/// inherits, say, the write end of the exec-report pipe).
+/// Child: between fork and exec/exit only the calls of the documented steps — it is a copy of a possibly
+/// multi-threaded caller, any lock of the caller may be locked for ever in it.
+fn judge_call_log(obs: &Value, r: &mut Report, rp: &Value) {
+    let mut parent_bad: Vec<String> = Vec::new();
+    let mut child_bad: Vec<String> = Vec::new();
+    let entries = obs["trace"].as_array().cloned().unwrap_or_default();
+    // the exec-report pipe: the last pipe the parent created before the fork; in the child its write end
+    // may have been moved (fcntl F_DUPFD_CLOEXEC) away from 0..=2
+    let fork_idx = entries.iter().find(|e| e["side"] == "parent" && e["call"] == "fork").and_then(|e| e["idx"].as_u64()).unwrap_or(u64::MAX);
+    let mut report_fds: Vec<u64> = entries.iter().filter(|e| e["side"] == "parent" && (e["call"] == "pipe2" || e["call"] == "pipe") && e["ret"] == 0 && e["idx"].as_u64().unwrap_or(0) < fork_idx).last().map(|e| vec![e["args"][5].as_u64().unwrap_or(u64::MAX)]).unwrap_or_default();
+    for e in &entries {
+        if e["side"] == "child" && e["call"] == "fcntl" && e["args"][1].as_u64() == Some(libc::F_DUPFD_CLOEXEC as u64) && report_fds.contains(&e["args"][0].as_u64().unwrap_or(u64::MAX)) {
+            if let Some(n) = e["ret"].as_i64().filter(|&n| n >= 0) {
+                report_fds.push(n as u64);
+            }
+        }
+    }
+    for e in entries {
+        let nr = e["nr"].as_i64().unwrap_or(-1);
+        let a = |i: usize| e["args"][i].as_u64().unwrap_or(0);
+        let call = format!("{}({:#x}, {:#x}, {:#x})", e["call"].as_str().unwrap_or("?"), a(0), a(1), a(2));
+        let cloexec = libc::O_CLOEXEC as u64;
+        if e["side"] == "parent" {
+            let ok = match nr {
+                x if x == libc::SYS_pipe => false,
+                x if x == libc::SYS_pipe2 => a(1) & cloexec != 0,
+                x if x == libc::SYS_open || x == libc::SYS_creat => x == libc::SYS_open && a(1) & cloexec != 0,
+                x if x == libc::SYS_openat => a(2) & cloexec != 0,
+                x if x == libc::SYS_dup || x == libc::SYS_dup2 => false,
+                x if x == libc::SYS_dup3 => a(2) & cloexec != 0,
+                x if x == libc::SYS_fcntl => a(1) as i32 != libc::F_DUPFD,
+                x if x == libc::SYS_socket || x == libc::SYS_socketpair => a(1) & libc::SOCK_CLOEXEC as u64 != 0,
+                _ => true,
+            };
+            if !ok {
+                parent_bad.push(call);
+            }
+        } else {
+            let ok = match nr {
+                x if x == libc::SYS_close || x == libc::SYS_dup3 || x == libc::SYS_dup2 || x == libc::SYS_chdir || x == libc::SYS_setuid || x == libc::SYS_setgid || x == libc::SYS_setpgid => true,
+                x if x == libc::SYS_execve || x == libc::SYS_exit || x == libc::SYS_exit_group => true,
+                x if x == libc::SYS_fcntl => matches!(a(1) as i32, libc::F_DUPFD_CLOEXEC | libc::F_SETFD | libc::F_GETFD),
+                // the 8-byte report to the parent, through the report pipe's write end (wherever it sits)
+                x if x == libc::SYS_write => report_fds.contains(&a(0)) && a(2) == 8,
+                _ => false,
+            };
+            if !ok {
+                child_bad.push(call);
+            }
+        }
+    }
+    if !parent_bad.is_empty() {
+        r.outcome("descriptor-created-without-cloexec");
+        r.violation("C13:spawn:descriptor-created-without-cloexec", format!("spawn, in the caller, creates a descriptor that is not close-on-exec from its creation: {} (a flag set by a later fcntl leaves a window for another thread's fork + exec)", parent_bad.join(", ")), rp.clone());
+    }
+    if !child_bad.is_empty() {
+        r.outcome("child-does-unexpected-work");
+        r.violation("C13:spawn:child-does-unexpected-work-between-fork-and-exec", format!("between fork and exec/exit the child makes calls that are none of the documented steps: {}", child_bad.join(", ")), rp.clone());
+    }
+}
+
 /// A step that fails without injection: the configuration's known one, or — where descriptor numbers
 /// alias — the child-side call the fault-free trace shows failing (dup3(k, k) = EINVAL, ...).
 fn natural_of(cfg: &Config, obs: &Value, faults: &[Fault]) -> Option<(String, i32)> {
@@ -1517,6 +1628,15 @@ fn judge(ctx: &Ctx, cfg: &Config, faults: &[Fault], res: &Result<Value, String>,
         Ok(o) => o,
         Err(e) if e == "hang" => {
             r.outcome("hang");
+            if cfg.lock_held {
+                r.outcome("hang-child-blocked-on-callers-lock");
+                r.violation(
+                    "C13:spawn:hang:child-blocked-on-callers-lock",
+                    format!("another thread of the caller was inside tiny_std::eprintln! (holding tiny-std's stderr lock) when spawn forked; spawn did not return within {READ_DEADLOCK_ALARM}s (failing step: {step}): the child, a copy of the caller with that lock locked for ever, blocks on it in the caller's code and the parent waits for it"),
+                    rp,
+                );
+                return;
+            }
             if read_failure_with_stdin_pipe(cfg, faults) {
                 r.outcome("hang-read-failure-with-stdin-pipe");
                 r.violation(
@@ -1548,6 +1668,7 @@ fn judge(ctx: &Ctx, cfg: &Config, faults: &[Fault], res: &Result<Value, String>,
         r.cap(format!("planned fault not applied (hit mask {} of {want_hits}, nr mismatch {}) in {rp}", obs["fault_hit"], obs["fault_nr_mismatch"]));
         return;
     }
+    judge_call_log(obs, r, &rp);
     // (1) exactly one process continues after spawn()
     let returned = obs["returned_in_child"].as_u64().unwrap_or(0);
     if returned > 0 {
@@ -2120,6 +2241,7 @@ fn product(thorough: bool) -> Vec<Config> {
                                 closure: cl.into(),
                                 sigchld: "default".into(),
                                 twice: false,
+                                lock_held: false,
                             });
                         }
                     }
@@ -2160,6 +2282,18 @@ fn jobs(ctx: &Ctx) -> Vec<Job> {
     for c in program_paths() {
         add(c, true, t, false, &mut out);
     }
+    // another thread holds tiny-std's stderr lock while the command fails in the child (and, for
+    // completeness, while it succeeds)
+    for c in [
+        Config { bin: "missing".into(), lock_held: true, ..Config::base() },
+        Config { cwd: "missing".into(), lock_held: true, ..Config::base() },
+        Config { closure: "fail".into(), lock_held: true, ..Config::base() },
+        Config { closure: "uncat".into(), lock_held: true, ..Config::base() },
+        Config { bin: "missing".into(), stdio: [Sm::Pipe; 3], lock_held: true, ..Config::base() },
+    ] {
+        add(c, false, false, false, &mut out);
+    }
+    add(Config { lock_held: true, ..Config::base() }, true, t, !t, &mut out);
     let (raw_shared, raw_twice) = rawfd_reuse();
     for c in raw_shared {
         add(c, true, t, false, &mut out);
@@ -2244,6 +2378,8 @@ fn c13(args: &Args) -> Report {
     r.bound("deviations", if args.thorough { "every single call of parent and child x full errno menu for the single-factor configurations and the 125 stdio triples, x 1-2 errnos for the product; pairs (second deviation after the first, full menu) for the base command and the all-pipes command" } else { "every single call of parent and child x 1-2 errnos, for every configuration" });
     r.bound("args", "0..2 arguments incl. empty string and non-UTF-8 bytes; count ladder (fault-free) n = 0..=70 (thorough 0..=300) + {127,128,129,255,256,257,1000} (thorough + 511..513, 1023..1025, 4096), argument i = \"a<i>\"; the same ladder for provided environment entries \"E<i>=v<i>\"");
     r.bound("read_failure_with_stdin_pipe", "a read of the exec-report pipe failing with EIO/EBADF is enumerated for every configuration with deviations, stdin = MakePipe included (watchdog 5 s there: a hang is C13:spawn:hang:parent-read)");
+    r.bound("call_log_oracle", "in every run: each descriptor-creating call of the parent carries O_CLOEXEC itself (pipe2/openat/dup3/fcntl/socket); the child between fork and exec/exit makes only close, dup3, fcntl(F_DUPFD_CLOEXEC/F_SETFD), chdir, setuid, setgid, setpgid, execve, the 8-byte write to the report pipe, exit");
+    r.bound("second_thread", "a second thread of the caller inside tiny_std::eprintln! (holding the stderr lock) while the command fails in the child (program missing, cwd missing, closure Err) or succeeds (with child-side deviations): spawn must return within 5 s");
     r.bound("rawfd_reuse", "Stdio::RawFd is borrowed: stdout and stderr on the same RawFd (x stdin Inherit/MakePipe/Null/RawFd, with deviations); the same Command spawned twice (7 stdio shapes), the second child judged");
     r.bound("closures", "pre-exec closure outcomes {Ok, Err(Os EXDEV), Err(Uncategorized), Err(Timeout), panic (unwinding)} as the only / first / second closure x 5 command shapes");
     r.bound("sigchld", "caller's SIGCHLD disposition {SIG_IGN, handler + SA_NOCLDWAIT} x 3 command shapes x {fault-free, every child-side call failing, program missing, cwd missing, closure Err(Os)/Err(Uncategorized)/panic}; Child::wait is not judged there");
